@@ -10,7 +10,9 @@ cd "$HERE"
 mkdir -p evidence replays
 /venv/bin/python harness/genall.py
 cd lean
-lake build 2>&1 | tail -40
-# the driver scripts are interpreted (`lean --run`), but everything they import must be built
+# every property's proof module, and everything the interpreted (`lean --run`) driver scripts import
+PROOFS=$(ls FimVerif/Proofs/C*.lean | sed 's#/#.#g; s#\.lean$##' | tr '\n' ' ')
 DRV=$(grep -h '^import FimVerif' FimVerif/Drivers/C*.lean | awk '{print $2}' | sort -u | tr '\n' ' ')
-lake build $DRV 2>&1 | tail -20
+lake build $PROOFS $DRV 2>&1 | tail -40
+# the library root (imports all of the above at once); its failure alone does not stop a check from working
+lake build 2>&1 | tail -5 || echo "WARNING: root target FimVerif did not build (name clash between property modules?)"
